@@ -175,11 +175,15 @@ Qed.
 (* GenSlots.v is re-extracted from lib.rs on every run: which classes define __len__ /
    __getitem__ / __getbuffer__ (none outside the model), the format literal, ndim, itemsize
    type and NULL-ness of shape/strides of every __getbuffer__, and the shape / strides
-   arrays cached by the three constructors.  The hand-written model agrees with all of it. *)
+   arrays cached by the three constructors; readonly / suboffsets / internal / view.obj, the
+   WRITABLE and NULL-view guards of every __getbuffer__ and that no class has a
+   __releasebuffer__; DEFAULT_EXTRA_ROWS, the row alignment and the lane count of the core
+   crate.  The hand-written model agrees with all of it. *)
 Theorem C18_model_matches_source :
   (forall k, has_index k = gen_has_len k /\ has_index k = gen_has_getitem k /\
-             model_getbuffer k = gen_getbuffer k) /\
-  gen_unmodelled_slots = 0 /\
+             model_getbuffer k = gen_getbuffer k /\ model_getbuffer_misc k = gen_getbuffer_misc k) /\
+  gen_unmodelled_slots = 0 /\ gen_releasebuffer_classes = 0 /\
+  DEFAULT_EXTRA_ROWS = gen_extra_rows /\ ROW_ALIGN = gen_row_align /\ LANES = gen_lanes /\
   (forall (T : Type) K S (t : list (list T)),
      sm_shape (scoring_new K S t) = gen_scoring_shape (Z.of_nat (length t)) (Z.of_nat K) (Z.of_nat S) /\
      sm_strides (scoring_new K S t) = gen_scoring_strides (Z.of_nat (length t)) (Z.of_nat K) (Z.of_nat S)) /\
@@ -191,13 +195,32 @@ Theorem C18_model_matches_source :
      sc_strides (scores_new C S t maxi) = gen_scores_strides (Z.of_nat (length t)) (Z.of_nat C) (Z.of_nat S)).
 Proof.
   split; [intros k; destruct k; repeat split; reflexivity|].
-  split; [reflexivity|].
+  do 5 (split; [reflexivity|]).
   split; [|split]; intros;
     unfold gen_scoring_shape, gen_scoring_strides, gen_striped_shape, gen_striped_strides,
            gen_scores_shape, gen_scores_strides, scoring_new, striped_new, scores_new;
     cbn [sm_shape sm_strides ss_shape ss_strides sc_shape sc_strides];
     split; f_equal; lia.
 Qed.
+
+(* ---------- buffer requests with explicit flags ---------- *)
+
+(* PyObject_GetBuffer(obj, &view, flags) on any object of any exporting class, any history:
+   a request with the PyBUF_WRITABLE bit is refused with BufferError (never granted, never a
+   panic), every other request — with or without PyBUF_FORMAT / ND / STRIDES / *_CONTIGUOUS /
+   INDIRECT — is answered with one and the same read-only Py_buffer, the one the view
+   theorems above are about (so they hold for every consumer, not only memoryview). *)
+Theorem C18_buffer_requests :
+  forall (T : Type) (dflt : T) (o : @lobj T) wraps L M (flags : Z) (b : pybuf),
+    model_buf dflt o wraps L M = Ok b ->
+    pb_readonly b = true /\
+    (Z.land flags 1 = 1%Z -> model_request dflt o wraps L M flags = Err EBuffer) /\
+    (Z.land flags 1 = 0%Z -> model_request dflt o wraps L M flags = Ok b).
+Proof. intros T dflt o wraps L M flags b. exact (model_request_cases dflt o wraps L M flags b). Qed.
+
+(* the two cases are exhaustive *)
+Example C18_flags_exhaustive : forall flags, (Z.land flags 1 = 0 \/ Z.land flags 1 = 1)%Z.
+Proof. exact land1_cases. Qed.
 
 (* ---------- views that outlive a reconfiguration (known finding F24) ---------- *)
 
